@@ -362,6 +362,33 @@ def main(ck):
         ck.violation(key, rep)
 
     ck.log('evaluation done')
+    # ---- hot reload through ONE shared handler AST (audit finding C12-1): a script handler served by the real HotHandler
+    # several times, the autoload file App/P.php rewritten before every request: request k runs on its own TempVM and
+    # must see version k of the class through every access path that resolves a class name in the AST.
+    hot_bodies = {
+        "new": "$o = new App\\P(); $w->write($o->v());",
+        "static-method": "$w->write(App\\P::s());",
+        "new-twice": "$a = new App\\P(); $b = new App\\P(); $w->write($a->v() + $b->v() - $a->v());",
+        "class_exists+new": "if (class_exists(\"App\\\\P\")) { $o = new App\\P(); $w->write($o->v()); }",
+    }
+    nhot = 0
+    if not ck.replay or json.load(open(ck.replay)).get("mode") == "hot":
+        hcases = [{"hot": {"body": b, "requests": 3}, "_kind": k} for k, b in sorted(hot_bodies.items())]
+        if ck.replay:
+            hcases = [json.load(open(ck.replay))["case"]]
+        houts, _, _ = run_impl(binary, hcases)
+        for c, o in zip(hcases, houts):
+            nhot += 1
+            if "worker_death" in o:
+                ck.violation("worker-death:" + str(o["worker_death"].get("signature")), {"mode": "hot", "case": c, "impl_out": o["worker_death"], "clause": "engine died"})
+                continue
+            got = [(st.get("r"), st.get("out")) for st in o.get("steps") or []]
+            want = [(0, str(k)) for k in range(1, c["hot"]["requests"] + 1)]
+            if o.get("err") or got != want:
+                ck.violation("hot-reload:" + c.get("_kind", "?"), {"mode": "hot", "case": c, "impl_out": o,
+                             "clause": "request k (own TempVM, class file rewritten before it) must see version k of App\\P: a definition resolved by an earlier request leaked through the shared handler AST"})
+    ck.cov["hot_reload_cases"] = nhot
+
     # ---- coverage numbers (measured)
     dist, lens = {}, {}
     nontriv = 0
